@@ -206,6 +206,9 @@ pub enum FaultKind {
     Delay { ms: u64 },
     /// flip one bit (position as a fraction of the datagram, in 1/65536)
     Corrupt { frac: u16 },
+    /// flip one bit inside the file-data field of a File Data PDU (other PDUs pass unharmed): what a link without the CRC
+    /// option lets through and only the file checksum can notice
+    CorruptData { frac: u16 },
 }
 
 #[derive(Clone, Debug, Serialize, Deserialize, PartialEq, Eq, Hash)]
@@ -806,7 +809,7 @@ async fn run_async(sc: &Scenario, roots: Vec<PathBuf>) -> Trace {
                     let pdu = PDU::decode(&mut sub.bytes.as_slice()).ok();
                     let mut bytes = sub.bytes;
                     // two corruptions of the same bit restore the datagram: "corrupted" is judged on the bytes, after all faults
-                    let pristine = if sc.faults.iter().any(|f| matches!(f.kind, FaultKind::Corrupt { .. })) { Some(bytes.clone()) } else { None };
+                    let pristine = if sc.faults.iter().any(|f| matches!(f.kind, FaultKind::Corrupt { .. } | FaultKind::CorruptData { .. })) { Some(bytes.clone()) } else { None };
                     let mut fate = Fate::Delivered(vec![]);
                     let mut corrupted = false;
                     let is_healed = healed_c.load(AtomicOrdering::Relaxed);
@@ -838,6 +841,17 @@ async fn run_async(sc: &Scenario, roots: Vec<PathBuf>) -> Trace {
                                         FaultKind::Dup { extra_ms } => deliveries.push(t + sc.lat_ms + extra_ms),
                                         FaultKind::Delay { ms } => {
                                             for d in deliveries.iter_mut() { *d += ms; }
+                                        }
+                                        FaultKind::CorruptData { frac } => {
+                                            if let Some(PDUPayload::FileData(FileDataPDU::Unsegmented(fd))) = pdu.as_ref().map(|x| &x.payload) {
+                                                let crc_len = if pdu.as_ref().map(|x| x.header.crc_flag == CRCFlag::Present).unwrap_or(false) { 2 } else { 0 };
+                                                let n = fd.file_data.len();
+                                                if n > 0 && bytes.len() >= n + crc_len {
+                                                    let start = bytes.len() - crc_len - n;
+                                                    let bit = (n * 8 * *frac as usize) >> 16;
+                                                    bytes[start + bit / 8] ^= 1 << (7 - bit % 8);
+                                                }
+                                            }
                                         }
                                         FaultKind::Corrupt { frac } => {
                                             if bytes.len() > 4 {
